@@ -24,6 +24,7 @@ def step (line : String) : String :=
   | "enc" :: ws => cmdEnc ws
   | "dec" :: ws => cmdDec ws
   | "decall" :: ws => cmdDecAll ws
+  | "frames" :: ws => cmdFrames ws
   | "brk" :: ws => cmdBrk ws
   | "sel" :: ws => cmdSel ws
   | "pool" :: ws => cmdPool ws
